@@ -199,6 +199,9 @@ pub enum Action {
     ModScale(#[serde(with = "hexf")] f64),
     /// y[i] += eps*(1+|y[i]|), return ModifiedSolution
     ModPerturb(#[serde(with = "hexf")] f64),
+    /// return ControlFlag::XOut(x): ask for an interpolant once the integration has reached x
+    /// (only meaningful with the low-level dense_output switched off)
+    XOut(#[serde(with = "hexf")] f64),
 }
 
 /// Solver tuning knobs (low-level entry only); None = builder default.
@@ -250,6 +253,13 @@ pub struct Scenario {
     pub faults: Vec<FaultSpec>,
     /// low-level entry: callback index -> action
     pub actions: Vec<(usize, Action)>,
+    /// low-level entry: the solver's own dense_output switch (solve_ivp always leaves it on)
+    #[serde(default = "default_true")]
+    pub low_dense: bool,
+}
+
+fn default_true() -> bool {
+    true
 }
 
 impl Scenario {
@@ -274,6 +284,7 @@ impl Scenario {
             events: vec![],
             faults: vec![],
             actions: vec![],
+            low_dense: true,
         }
     }
     pub fn dir(&self) -> f64 {
@@ -333,6 +344,9 @@ impl Scenario {
         }
         if self.method.implicit() {
             s += &format!(" jac={:?}", self.jac);
+        }
+        if !self.low_dense {
+            s += " low_dense=false";
         }
         if self.knobs != Knobs::default() {
             s += &format!(" knobs={:?}", self.knobs);
